@@ -40,10 +40,11 @@ theorem wf_rollbackCbOut {c : Ctx} {id : TxId} {blk : BlockMeta} {acc acc' : (St
     · cases h
     · split at h
       · cases h; exact hq
-      · obtain ⟨sb, h1, h2⟩ := M_bind_ok h
-        cases h2
-        refine wf_rollbackOwnedOut ?_ h1
-        exact hq
+      · obtain ⟨sb1, h1, h2⟩ := M_bind_ok h
+        have hq1 : KeysNodup sb1.1.unspent := by
+          refine wf_rollbackOwnedOut ?_ h1
+          exact hq
+        split at h2 <;> cases h2 <;> exact hq1
 
 theorem wf_rollbackIn {c : Ctx} {id : TxId} {blk : BlockMeta} {sb sb' : Store × Bals} {cur : Nat} {i : Inp}
     (hq : KeysNodup sb.1.unspent) (h : rollbackIn c id blk sb cur i = .ok sb') : KeysNodup sb'.1.unspent := by
